@@ -718,7 +718,7 @@ def evaluate_server(plan):
         if not fault and got['answered']:
             # bounded liveness: a well-formed request is answered within its
             # own accept step
-            if not (got['response'] or '').startswith('HTTP/1.0 200'):
+            if not (got['response'] or '')[:12] in ('HTTP/1.0 200', 'HTTP/1.1 200'):
                 probes['wellformed_not_200'] = \
                     probes.get('wellformed_not_200', 0) + 1
         if not got['answered']:
